@@ -75,6 +75,11 @@ pub fn crypto_algos(c: &Crypto) -> (bool, Vec<(u8, f32)>) {
     (c.algorithms.allow_unencrypted, ids)
 }
 
+/// the keys a `Crypto` trusts
+pub fn crypto_trusted(c: &Crypto) -> Vec<Vec<u8>> {
+    c.trusted_keys.iter().map(|k| k.to_vec()).collect()
+}
+
 /// the public key a `Crypto` signs with
 pub fn crypto_public_key(c: &Crypto) -> Vec<u8> {
     c.key_pair.public_key().as_ref().to_vec()
